@@ -303,19 +303,20 @@ func rulesC14(p *Prog, r *Report) {
 		sort.Slice(fs, func(i, j int) bool { return fname(fs[i]) < fname(fs[j]) })
 		norm := func(v ssa.Value) string {
 			var parts []string
-			for _, o := range p.Origins(v) {
-				// GetApp(id).Id is id
-				if o.Kind == "call" && p.callIs(o.Call, "GetApp") && len(o.Path) == 1 && o.Path[0] == "Id" {
-					args := callArgs(o.Call)
-					if len(args) >= 2 {
-						for _, o2 := range p.Origins(args[1]) {
-							parts = append(parts, p.UpStrings(o2, 0)...)
+			var add func(os []Origin, d int)
+			add = func(os []Origin, d int) {
+				for _, o := range p.UpOrigins(os, 0) {
+					// GetApp(id).Id is id
+					if d < 3 && o.Kind == "call" && p.callIs(o.Call, "GetApp") && len(o.Path) == 1 && o.Path[0] == "Id" {
+						if args := callArgs(o.Call); len(args) >= 2 {
+							add(p.Origins(args[1]), d+1)
+							continue
 						}
-						continue
 					}
+					parts = append(parts, o.String())
 				}
-				parts = append(parts, p.UpStrings(o, 0)...)
 			}
+			add(p.Origins(v), 0)
 			parts = uniq(parts)
 			return strings.Join(parts, "|")
 		}
